@@ -598,14 +598,44 @@ def blocks_calling(body, suffixes, blocks=None):
     return out
 
 
+def return_locals(body):
+    """{0} - and, in a body with spliced helpers, the helpers' own return places: locals whose value is moved, whole, into
+    a return place (`dest = move _ret; ... _0 = move dest`).  An `Err(..)` built for a spliced helper's return place is an
+    error return of the merged function on that path."""
+    cached = getattr(body, '_ret_locals', None)
+    if cached is not None:
+        return cached
+    ret = {0}
+    if getattr(body, 'inlined', False):
+        moves = []
+        for bb in body.live_blocks():
+            if body.is_cleanup(bb):
+                continue
+            for s in body.stmts(bb):
+                if 'assign' in s and not s['assign'].get('p') and s['rv']['k'] == 'use':
+                    p = op_place(s['rv']['op'])
+                    if p is not None and not p.get('p') and (body.local_ty(p['l']) or '').startswith('core::result::Result<'):
+                        moves.append((s['assign']['l'], p['l']))
+        changed = True
+        while changed:
+            changed = False
+            for dst, src in moves:
+                if dst in ret and src not in ret:
+                    ret.add(src)
+                    changed = True
+    body._ret_locals = ret
+    return ret
+
+
 def ok_return_blocks(body, blocks=None):
     """blocks that assign `_0 = Result::Ok{..}` (aggregate) -- the explicit success returns"""
     out = []
+    RL = return_locals(body)
     for bb in (blocks if blocks is not None else body.live_blocks()):
         if body.is_cleanup(bb):
             continue
         for s in body.stmts(bb):
-            if 'assign' in s and s['assign']['l'] == 0 and not s['assign'].get('p'):
+            if 'assign' in s and s['assign']['l'] in RL and not s['assign'].get('p'):
                 rv = s['rv']
                 if rv['k'] == 'agg' and rv.get('adt') == 'core::result::Result' and rv.get('variant') == 'Ok':
                     out.append(bb)
@@ -615,16 +645,17 @@ def ok_return_blocks(body, blocks=None):
 def err_return_blocks(body, blocks=None):
     """blocks that assign `_0 = Result::Err{..}` or `_0 = from_residual(..)` (the `?` error exit)"""
     out = []
+    RL = return_locals(body)
     for bb in (blocks if blocks is not None else body.live_blocks()):
         if body.is_cleanup(bb):
             continue
         for s in body.stmts(bb):
-            if 'assign' in s and s['assign']['l'] == 0 and not s['assign'].get('p'):
+            if 'assign' in s and s['assign']['l'] in RL and not s['assign'].get('p'):
                 rv = s['rv']
                 if rv['k'] == 'agg' and rv.get('adt') == 'core::result::Result' and rv.get('variant') == 'Err':
                     out.append(bb)
         t = body.term(bb)
-        if t['k'] == 'call' and t['dest']['l'] == 0 and not t['dest'].get('p') and call_matches(t, ['FromResidual::from_residual', 'from_residual']):
+        if t['k'] == 'call' and t['dest']['l'] in RL and not t['dest'].get('p') and call_matches(t, ['FromResidual::from_residual', 'from_residual']):
             out.append(bb)
     return out
 
@@ -1201,3 +1232,34 @@ def mentions_field(body, field, of=None):
 def is_bool_table(ty):
     """a per-node boolean table however it is passed: Vec<bool>, &mut Vec<bool>, &mut [bool], Box<[bool]>"""
     return 'Vec<bool>' in ty or '[bool]' in ty
+
+
+def slice_advance_shape(b):
+    """How a function advances a slice by a caller-given n with a bounds check: 'get' (`.get(n..)`, None => Err),
+    'cmp' (`n > len => Err`, then `&slice[n..]`), or None.  n is the function's second parameter after a checked
+    conversion, unmodified."""
+    gets = [(bb, t) for bb, t in b.calls() if call_matches(t, ['slice::<impl [T]>::get']) and not b.is_cleanup(bb)]
+    if len(gets) == 1:
+        bb, t = gets[0]
+        ro = origin(b, t['args'][1])
+        none_err = False
+        for sbb in sorted(b.live_blocks()):
+            if b.term(sbb)['k'] == 'switch':
+                si = b.switch_info(sbb)
+                if si.get('kind') == 'enum' and si.get('adt') == 'core::option::Option':
+                    nb = si['variants'].get('None', si['otherwise'] if 'None' in (si.get('otherwise_variants') or []) else None)
+                    if nb is not None and all_paths_err(b, nb):
+                        none_err = True
+        if ro.params() == {2} and 'try_into' in ro.flags and not ro.has_arith() and none_err and any(a[0] == 'agg' and a[1].endswith('RangeFrom') for a in ro.atoms):
+            return 'get'
+    idx = [(bb, t) for bb, t in b.calls() if call_matches(t, ['Index::index', 'Index<I>>::index']) and not b.is_cleanup(bb) and
+           len(t.get('arg_tys', [])) > 1 and 'RangeFrom<' in t['arg_tys'][1]]
+    if len(idx) == 1 and not gets:
+        bb, t = idx[0]
+        ro = origin(b, t['args'][1])
+        na = {a for a in ro.atoms if a[0] != 'agg'}
+        if ro.params() == {2} and 'try_into' in ro.flags and not ro.has_arith():
+            for g in cmp_guards(b, bb):
+                if g['op'] == 'Le' and g['l'].atoms == na and 'len' in g['r'].flags and all(all_paths_err(b, o_) for o_ in g['other']):
+                    return 'cmp'
+    return None
